@@ -604,8 +604,6 @@ class CallMixin:
         finally:
             self.in_quant -= 1
         key = e.sexpr()
-        if not hasattr(self, '_sumdefs') or self._sumdefs_epoch is not self.pc:
-            self._sumdefs, self._sumdefs_epoch = {}, self.pc
         S = self._sumdefs.get(key)
         if S is None:
             S = z3.Function(self.fresh_name('psumof'), I, I)
